@@ -84,7 +84,7 @@ def main():
                 fired[c["property_id"]] = {"rc": r.returncode, "fails": [l for l in r.stdout.splitlines() if l.startswith(("FAIL", "ANALYSIS"))][:6]}
         shutil.rmtree(env["VERIF_OUT"], ignore_errors=True)
     finally:
-        sh("git -C /repo checkout -- .")
+        sh("git -C /repo checkout -- . && git -C /repo clean -fdq -- src include")
     meta["checks_fired"] = fired
     meta["detected"] = bool(fired)
     meta["detected_by_target_property"] = pid in fired
